@@ -1,6 +1,6 @@
 #!/bin/bash
 # harmless.sh: apply each behaviour-preserving edit under selftest/harmless to a scratch worktree and run the quick
-# checks that look at the edited code; none may report a VIOLATION.
+# checks that look at the edited code (listed in <name>.checks, or env CHECKS for all); none may report a VIOLATION.
 cd /verif
 rc=0
 for h in selftest/harmless/*.diff; do
@@ -8,7 +8,9 @@ for h in selftest/harmless/*.diff; do
   git -C /repo worktree add -q --detach $wt HEAD || exit 2
   git -C $wt apply $(realpath $h) || { echo "does not apply: $h"; git -C /repo worktree remove --force $wt; continue; }
   (cd $wt && PATH=/opt/veriftools/go1.26.8/bin:$PATH GOFLAGS=-mod=mod GOPROXY=off GOSUMDB=off GOTOOLCHAIN=local go build ./... ) || echo "BUILD FAILS: $h"
-  for p in ${CHECKS:-C06 C11 C10 C02 C15}; do
+  list=${CHECKS:-}
+  [ -z "$list" ] && [ -f "${h%.diff}.checks" ] && list=$(cat "${h%.diff}.checks")
+  for p in ${list:-C06 C11 C10 C02 C15}; do
     ev=$(mktemp -d /tmp/govc-harmless-ev-XXXXXX)
     bin/govc check -prop $p -tier quick -repo $wt -verif $ev -known /verif/known_findings.txt > $ev/out.txt 2>&1; c=$?
     n=$(grep -c "^VIOLATION" $ev/out.txt)
